@@ -76,7 +76,15 @@ func (c *logfileC) Exec(op string) string {
 		logf := filepath.Join(dir, "p.log")
 		cases := ""
 		for i, cd := range codes {
-			cases += fmt.Sprintf("%d) exit %s;; ", i+1, cd)
+			switch cd {
+			case "K":
+				// the command is ended by a signal (SIGKILL / SIGTERM to itself): no exit code of its own
+				cases += fmt.Sprintf("%d) kill -9 $$;; ", i+1)
+			case "T":
+				cases += fmt.Sprintf("%d) kill -TERM $$;; ", i+1)
+			default:
+				cases += fmt.Sprintf("%d) exit %s;; ", i+1, cd)
+			}
 		}
 		last := ""
 		if w[5] == "1" {
@@ -94,7 +102,16 @@ func (c *logfileC) Exec(op string) string {
 			return "runner-error"
 		}
 		done := make(chan struct{})
-		go func() { _ = r.Run(); close(done) }()
+		runRes := "ok"
+		go func() {
+			if err := r.Run(); err != nil {
+				runRes = "error"
+				if ee, ok := err.(*app.ExitError); ok {
+					runRes = fmt.Sprintf("exit:%d", ee.Code)
+				}
+			}
+			close(done)
+		}()
 		select {
 		case <-done:
 		case <-time.After(20 * time.Second):
@@ -126,7 +143,7 @@ func (c *logfileC) Exec(op string) string {
 		fo, fe := split2(flines)
 		st, _ := r.GetProcessState("p")
 		j := func(l []string) string { return "[" + strings.Join(l, ",") + "]" }
-		return fmt.Sprintf("status=%s restarts=%d mem_out=%s mem_err=%s file_out=%s file_err=%s", st.Status, st.Restarts, j(mo), j(me), j(fo), j(fe))
+		return fmt.Sprintf("status=%s restarts=%d mem_out=%s mem_err=%s file_out=%s file_err=%s exit=%d run=%s", st.Status, st.Restarts, j(mo), j(me), j(fo), j(fe), st.ExitCode, runRes)
 	})
 }
 
@@ -139,7 +156,7 @@ func (c *logfileC) Gen(r *rand.Rand, tier string, emit func(string)) {
 	for k := 0; k < n; k++ {
 		codes := []string{}
 		for i := 0; i < 1+r.Intn(4); i++ {
-			codes = append(codes, []string{"0", "1", "1", "3"}[r.Intn(4)])
+			codes = append(codes, []string{"0", "1", "1", "3", "K", "T"}[r.Intn(6)])
 		}
 		mx := 1 + r.Intn(3)
 		emit(fmt.Sprintf("lf %s %d %s %d %d %d", pols[r.Intn(len(pols))], mx, strings.Join(codes, ","), 1+r.Intn(4), r.Intn(2), []int{1000, 1000, 5}[r.Intn(3)]))
